@@ -620,11 +620,15 @@ func (interp *Interpreter) EvalWithContext(ctx context.Context, src string) (ref
 func (interp *Interpreter) stop() {
 	atomic.AddUint64(&interp.id, 1)
 	interp.mutex.Lock()
-	close(interp.done)
-	// The closed channel belongs to the cancelled evaluation only: frames of
-	// that evaluation hold their own copy. Later evaluations without a context
-	// must not see it, or their channel operations would be cancelled at once.
-	interp.done = nil
+	if interp.done != nil {
+		// (nil: already closed on behalf of a concurrent evaluation, which
+		// shares the channel and has been cancelled too.)
+		close(interp.done)
+		// The closed channel belongs to the cancelled evaluations only: their
+		// frames hold their own copy. Later evaluations without a context must
+		// not see it, or their channel operations would be cancelled at once.
+		interp.done = nil
+	}
 	interp.mutex.Unlock()
 }
 
